@@ -14,7 +14,7 @@ import vtlib
 from checks import synccheck
 
 META = dict(
-    text='TLC exhausts a model of photon::WorkPool transcribed from thread/workerpool.cpp (WorkPool.tla: 2 worker vCPUs each with its cooperative run queue ordered as thread.cpp orders it, a dispatch ring of 2 slots taken as an atomic FIFO, a photon-thread submitter and an OS-thread submitter handing over 3 and 4 tasks through call() (semaphore / promise awaiter in the caller\'s frame) and async_call() (heap functor), task bodies that return at once, yield or sleep, thread modes -1 (inline), 0 (new photon thread per task) and >0 (per-worker thread pool of capacity 1: reuse of an idle pooled thread, creation, overflow with its extra yield and the pool reference count), the destructor started right after the last hand-over returned: one stop marker per registered worker, join, wait for deregistration, ring destroyed; optionally one worker that joined through join_current_vcpu_into_workpool) and checks RunsExactlyOnce, CallReturnsAfterFinish, AsyncDeletedOnceAfterRun, RecordCopiedBeforeReuse (the helper thread copies the dispatcher\'s stack record before the dispatcher\'s loop iteration ends, in every interleaving the run queue allows), DestructorWaits, EveryWorkerGetsOneMarker, absence of faults (use of the caller\'s frame after call() returned, promise satisfied twice, functor used after / deleted twice, ring used after destruction), NoStuck (nothing but polling possible => destructor finished) and, on the smallest configuration under weak fairness, termination. Seven deliberately broken variants must each violate the property they attack and eight situations of interest must be reachable. Recorded executions of the real WorkPool (1-3 pool vCPUs, optional externally joined vCPU, modes -1 / 0 / 4, rings of 1, 2, 3, 4 and 64 slots, 1-4 submitters that are photon threads on 3 other vCPUs or plain OS threads using PhotonContext / StdContext / AutoContext and both forms of call(), bursts of async_call() larger than the ring, bodies that return, yield, sleep up to 2.5 ms or spin, the pool destroyed by the submitter that finished last or by the main thread immediately afterwards) are validated by TLC against the abstract pool: each task starts once after it was handed over and ends once on a pool vCPU, call() returns after its task ended, each async functor is deleted once after its task ended and is intact when run and deleted, ~WorkPool() returns only after every handed-over task ended and was deleted, nothing runs afterwards; a crash or a hang rejects the execution.',
+    text='TLC exhausts a model of photon::WorkPool transcribed from thread/workerpool.cpp (WorkPool.tla: 2 worker vCPUs each with its cooperative run queue ordered as thread.cpp orders it, a dispatch ring of 2 slots taken as an atomic FIFO, a photon-thread submitter and an OS-thread submitter handing over 3 and 4 tasks through call() (semaphore / promise awaiter in the caller\'s frame) and async_call() (heap functor), task bodies that return at once, yield or sleep, thread modes -1 (inline), 0 (new photon thread per task) and >0 (per-worker thread pool of capacity 1: reuse of an idle pooled thread, creation, overflow with its extra yield and the pool reference count), the destructor started right after the last hand-over returned: one stop marker per registered worker, join, wait for deregistration, ring destroyed; optionally one worker that joined through join_current_vcpu_into_workpool) and checks RunsExactlyOnce, CallReturnsAfterFinish, AsyncDeletedOnceAfterRun, RecordCopiedBeforeReuse (the helper thread copies the dispatcher\'s stack record before the dispatcher\'s loop iteration ends, in every interleaving the run queue allows), DestructorWaits, EveryWorkerGetsOneMarker, absence of faults (use of the caller\'s frame after call() returned, promise satisfied twice, functor used after / deleted twice, ring used after destruction), NoStuck (nothing but polling possible => destructor finished) and, on the smallest configuration under weak fairness, termination. Seven deliberately broken variants must each violate the property they attack and eight situations of interest must be reachable. Recorded executions of the real WorkPool (1-3 pool vCPUs, optional externally joined vCPU, modes -1 / 0 / 4, rings of 1, 2, 3, 4 and 64 slots, 1-4 submitters that are photon threads on 3 other vCPUs or plain OS threads using PhotonContext / StdContext / AutoContext and both forms of call(), bursts of async_call() larger than the ring, bodies that return, yield, sleep up to 7 ms or spin, the pool destroyed by the submitter that finished last or by the main thread immediately afterwards) are validated by TLC against the abstract pool: each task starts once after it was handed over and ends once on a pool vCPU, call() returns after its task ended, each async functor is deleted once after its task ended and is intact when run and deleted, ~WorkPool() returns only after every handed-over task ended and was deleted, nothing runs afterwards; a crash or a hang rejects the execution.',
     note='TLC results hold for the stated populations. The MPMC ring is taken as an atomic FIFO and its wake-up protocol as "timed waits re-poll" (C07); semaphore and promise awaiters as their abstract objects (C02). The model is sequentially consistent. Conformance samples schedules; on the real code the hand-off of the stack record is observed only through its consequences (a task that runs twice / never / with a corrupted functor, a crash). No sanitizer build: photon switches stacks underneath ASan. thread_migrate() into the pool is not exercised.',
     technique='TLA+ protocol model checked exhaustively by TLC (configuration sets, broken-variant and reachability witnesses recorded in TLC registers, liveness on the smallest configuration); TLC trace validation of executions recorded from the real WorkPool against the abstract pool',
     design='3/C08')
@@ -34,8 +34,9 @@ REACH = [(m, r) for m in ALL_MODES for r in ('full_ring', 'dtor_while_running', 
 MC_Q = [('MC_WorkPool_quick.cfg', 4)]
 MC_T = MC_Q + [('MC_WorkPool_3a_thorough.cfg', 3), ('MC_WorkPool_4a_thorough.cfg', 4), ('MC_WorkPool_4b_thorough.cfg', 6),
                ('MC_WorkPool_ext_thorough.cfg', 3), ('MC_WorkPool_live_thorough.cfg', 2)]
-MODES_Q = [('inline', 60), ('thread', 60), ('pooled', 60)]
-MODES_T = [('inline', 700), ('thread', 700), ('pooled', 700)]
+# per thread mode: the general random programs and the "x" flavour (an externally joined vCPU next to one owned vCPU, long sleeps)
+MODES_Q = [(m, [(m, 60), (m + 'x', 25)]) for m in ALL_MODES]
+MODES_T = [(m, [(m, 700), (m + 'x', 150)]) for m in ALL_MODES]
 
 
 def _triples(out, tag):
@@ -98,15 +99,18 @@ def conformance(ctx, modes):
     kinds, totals = {}, {'executions': 0, 'tasks': 0}
     chunk = 2600 if ctx.tier == 'quick' else 7000
 
-    def one(mode, execs):
-        trace = f'{ctx.out}/{mode}.ndjson'
-        rc, o, e = ctx.run_harness(h, ['--prim', mode, '--execs', execs, '--seed', ctx.seed, '--vcpus', 3, '--threads', 4,
-                                        '--ops', 5, '--out', trace], timeout=1500, ok_rcs=(0, 3, 4))
-        if rc == 124:
-            raise vtlib.InfraError(f'h_workpool --prim {mode} timed out')
-        rows = vtlib.read_ndjson(trace)
-        if not rows:
-            raise vtlib.InfraError(f'h_workpool --prim {mode} recorded nothing')
+    def one(mode, prims):
+        rows = []
+        for prim, execs in prims:
+            trace = f'{ctx.out}/{prim}.ndjson'
+            rc, o, e = ctx.run_harness(h, ['--prim', prim, '--execs', execs, '--seed', ctx.seed, '--vcpus', 3, '--threads', 4,
+                                            '--ops', 5, '--out', trace], timeout=1500, ok_rcs=(0, 3, 4))
+            if rc == 124:
+                raise vtlib.InfraError(f'h_workpool --prim {prim} timed out')
+            got = vtlib.read_ndjson(trace)
+            if not got:
+                raise vtlib.InfraError(f'h_workpool --prim {prim} recorded nothing')
+            rows += got
         acc, rejs, n = tracecheck.validate(ctx, 'Trace_WorkPoolA', 'Trace_WorkPoolA.cfg', rows, chunk_events=chunk, par=4,
                                            tagbase=f'Trace_WorkPoolA_{mode}')
         with lock:
@@ -123,7 +127,7 @@ def conformance(ctx, modes):
             tracecheck.report(ctx, rejs, mode, name=f'Trace_WorkPoolA_{mode}')
 
     with ThreadPoolExecutor(max_workers=len(modes)) as ex:
-        for f in [ex.submit(one, m, n) for m, n in modes]:
+        for f in [ex.submit(one, m, prims) for m, prims in modes]:
             f.result()
     ctx.extra['executions_recorded'] = totals['executions']
     ctx.extra['tasks_handed_over'] = totals['tasks']
